@@ -439,6 +439,24 @@ def r8_cache_levels(idx, r):
                           "components and their descendants: after a child's volume changes the assembly/core keeps serving the stale value")
     if n < 1:
         raise AnchorMissing("no composite-cache writer found (Block.getArea caches `area`)")
+    # the memo key covers the arguments: a value that depends on a parameter of the method is cached under a name that depends on it too
+    for m in idx.modules.values():
+        if not m.name.startswith("armi.reactor") or ".tests" in m.name:
+            continue
+        for f in m.all_funcs():
+            cc = [c for c in iter_calls(f.node) if dotted(c.func) in ("self._setCache", "self._getCached") and c.args]
+            if not cc or f.name in ("_setCache", "_getCached"):
+                continue
+            for prm in f.params()[1:]:
+                if not any(isinstance(x, ast.Name) and x.id == prm and isinstance(x.ctx, ast.Load) for x in walk_local(f.node)):
+                    continue
+                for c in cc:
+                    names = {x.id for x in ast.walk(c.args[0]) if isinstance(x, ast.Name)}
+                    key_src = [c.args[0]] + [s_.value for s_ in iter_stores(f.node) if s_.kind == "assign" and isinstance(s_.node, ast.Name) and s_.node.id in names and s_.value is not None]
+                    in_key = any(isinstance(x, ast.Name) and x.id == prm for k in key_src for x in ast.walk(k))
+                    guarded = any(prm in {x.id for x in ast.walk(t) if isinstance(x, ast.Name)} for t, _p in path_conditions(f.node, c))
+                    r.require(in_key or guarded, f"{f.qualname}:cache-key-covers:{prm}", f, node=c,
+                              msg=f"{f.qualname} computes a value that depends on `{prm}` but `{norm(c)[:60]}` uses a cache name that does not: the first caller's `{prm}` decides what every later caller gets")
 
 
 def r9_mass_from_number_densities(idx, r):
